@@ -242,4 +242,44 @@ example (C : Cfg) (inp : Input) (h : inp.size = 3) :
     Chain inp 0 (leavesL [Tree.node 5 [.leaf 0 1 (lineAt inp 0)], .node 5 [.leaf 1 2 (lineAt inp 1)]]) 3 := by
   simp [leavesL, leaves, Chain, h]
 
+
+/-! ### exactly one branch: whatever the test, at most one body of a chain is kept, and exactly one when there is an `else -/
+
+def keptCount (flags : List Bool) : Nat := (flags.filter (fun b => !b)).length
+
+theorem kept_flags (test : Bytes → Bool) : ∀ (names : List Bytes) (hit : Bool),
+    keptCount (elsifFlags test names hit) = (if !hit && names.any test then 1 else 0) := by
+  intro names
+  induction names with
+  | nil => intro hit; cases hit <;> simp [elsifFlags, keptCount]
+  | cons n ns ih =>
+    intro hit
+    cases hit with
+    | true =>
+      have := ih true
+      simp only [Bool.not_true, Bool.false_and, Bool.false_eq_true, if_false] at this ⊢
+      simp only [elsifFlags, keptCount, List.filter_cons, Bool.not_true, Bool.false_eq_true, if_false]
+      exact this
+    | false =>
+      by_cases ht : test n
+      · have := ih true
+        simp only [Bool.not_true, Bool.false_and, Bool.false_eq_true, if_false] at this
+        simp [elsifFlags, keptCount, ht] at this ⊢
+        exact this
+      · have := ih false
+        simp [elsifFlags, keptCount, ht] at this ⊢
+        exact this
+
+/-- **a conditional chain keeps at most one body, and exactly one when it has an `else** (both `ifdef and `ifndef chains, every table and every
+    list of names — including the predefined-name cases of known finding D3b, where the wrong body may be kept but never two) -/
+theorem C04_exactly_one_branch (isIfdef : Bool) (defd : Bytes → Bool) (ifname : Bytes) (names : List Bytes) (hasElse : Bool) :
+    let plan := condPlan isIfdef defd ifname names hasElse
+    let kept := (if plan.1 then 0 else 1) + keptCount plan.2.1 + (if hasElse && !plan.2.2 then 1 else 0)
+    kept ≤ 1 ∧ (hasElse = true → kept = 1) := by
+  rw [condPlan_eq]
+  dsimp only
+  generalize (if isIfdef then isDefinedName defd ifname else !isDefinedName defd ifname) = hit0
+  rw [kept_flags]
+  cases hit0 <;> cases hasElse <;> cases List.any names (elsifTest isIfdef defd ifname) <;> simp
+
 end Sv
